@@ -175,6 +175,27 @@ Theorem C14_tokens_partial : forall (T : Type) (sigt : bytes -> option (list T))
                      end).
 Proof. exact (build_code_tokens P parse_lines echo strip walk file_lines check_name find
                                 preamble_package preamble_require header_line end_line nl_line). Qed.
+
+(* ... and, relative to one more hypothesis - the stripping step acts on significant tokens as a
+   function [sstrip] does (for the concrete stack: as Spec/RequireSpec.spec_strip, the removal of the
+   top-level game loop function definitions) - every embedded package's tokens are its file's tokens,
+   minus only what [sstrip] removes unless {use_game_loop=true} was in force when it was loaded *)
+Theorem C14_block_tokens_partial : forall (T : Type) (sigt : bytes -> option (list T)) (sstrip : list T -> list T),
+  (forall ls q, parse_lines ls = Ok q -> concat (echo q) = concat ls) ->
+  (forall c, concat (file_lines c) = c) ->
+  (forall q q', strip q = Ok q' -> sigt (concat (echo q')) = option_map sstrip (sigt (concat (echo q)))) ->
+  forall fuel main_path main_content r pk,
+  build_lua fuel main_path main_content = Ok (r, pk) ->
+  Forall (fun e => exists rpath (gl : bool) qpath content, find rpath (fst e) = Some (qpath, content) /\
+            (lexes T sigt content ->
+             lexes T sigt (concat (echo (snd e))) /\
+             toks T sigt (concat (echo (snd e))) =
+               if gl then toks T sigt content else sstrip (toks T sigt content))) pk.
+Proof.
+  exact (fun T sigt sstrip He Hf Hs =>
+    build_block_tokens P parse_lines echo strip walk file_lines check_name find
+      preamble_package preamble_require header_line end_line nl_line T sigt He Hf sstrip Hs).
+Qed.
 End Abstract.
 
 (* the concrete instance: lexer and parser models, walker and stripping as in build.py, the
@@ -224,6 +245,7 @@ Print Assumptions C14_errors_bad_name.
 Print Assumptions C14_errors_missing_file.
 Print Assumptions C14_terminates.
 Print Assumptions C14_tokens_partial.
+Print Assumptions C14_block_tokens_partial.
 Print Assumptions C14_terminates_now.
 Print Assumptions C14_dfs_exact.
 Print Assumptions C14_tokens_partial_now.
